@@ -20,12 +20,15 @@ _NOKEY = object()
 
 
 class DateV(object):
-    """datetime.datetime as integer microseconds since 0001-01-01"""
-    __slots__ = ('us',)
+    """datetime.datetime as integer microseconds since 0001-01-01; `aware`:
+    carries a tzinfo (parsed with %z): ordering or subtracting an aware and a
+    naive datetime raises TypeError in CPython"""
+    __slots__ = ('us', 'aware')
     always_truthy = True
 
-    def __init__(self, us):
+    def __init__(self, us, aware=False):
         self.us = us
+        self.aware = aware
 
 
 class DeltaV(object):
@@ -96,6 +99,10 @@ class Library(object):
         shutil_err.compute_mro()
         shutil_err.builtin_kind = 'exception'
         self.exc_classes['shutil.Error'] = shutil_err
+        re_err = ClassV('error', 're', [self.exc_classes['Exception']])
+        re_err.compute_mro()
+        re_err.builtin_kind = 'exception'
+        self.exc_classes['re.error'] = re_err
         self.opaque_counter = 0
         self.builtins = {}
         self.registry = {}
@@ -915,7 +922,7 @@ class Library(object):
             ok = z3.And(us >= 0, us <= DATE_MAX_US)
             if not I.ctx.branch(ok, 'date-in-range'):
                 raise PyExc(self.make_exc('OverflowError', 'date value out of range'))
-            return DateV(us)
+            return DateV(us, a.aware)
         if _is_int(a) and _is_int(b):
             if not is_sym(a) and not is_sym(b):
                 a2, b2 = int(a), int(b)
@@ -1055,6 +1062,9 @@ class Library(object):
                 return mk(y < x)
             return mk(y <= x)
         if isinstance(a, DateV) and isinstance(b, DateV):
+            if a.aware != b.aware:
+                raise PyExc(self.make_exc(
+                    'TypeError', "can't compare offset-naive and offset-aware datetimes"))
             x, y = a.us, b.us
         elif _is_int(a) and _is_int(b):
             if not is_sym(a) and not is_sym(b):
@@ -1506,7 +1516,21 @@ class Library(object):
         return isinstance(a[0], (FuncV, BoundMethod, Builtin, ClassV))
 
     def bi_input(self, I, a, k):
-        raise OutsideSubset('input() must be provided by the harness')
+        """input(prompt): a line without its newline, EOFError at end of
+        input, KeyboardInterrupt; recorded as ('input', prompt, reply)"""
+        ctx = I.ctx
+        d = ctx.choose(3, 'input()')
+        prompt = a[0] if a else ''
+        if d == 1:
+            ctx.events.append(('input', prompt, None))
+            raise PyExc(self.make_exc('EOFError', 'EOF when reading a line'))
+        if d == 2:
+            ctx.events.append(('input', prompt, None))
+            raise PyExc(self.make_exc('KeyboardInterrupt', ''))
+        r = ctx.fresh_str('stdin-line')
+        ctx.assume(z3.Not(z3.Contains(r, z3.StringVal('\n'))))
+        ctx.events.append(('input', prompt, r))
+        return Sym(r, 'str')
 
     # ------------------------------------------------------------------
     # library registry (dotted name -> value)
@@ -1566,6 +1590,9 @@ class Library(object):
         r['six.text_type'] = self.str_cls
         r['six.moves.range'] = self.builtins['range']
         r['six.moves.input'] = B('input', self.bi_input)
+        r['re.escape'] = B('re.escape', self.lib_re_escape)
+        r['re.sub'] = B('re.sub', self.lib_re_sub)
+        r['re.error'] = self.exc_classes['re.error']
         r['enum.Enum'] = self.enum_cls
         r['fnmatch.fnmatchcase'] = B('fnmatchcase', self.lib_fnmatchcase)
         r['fnmatch.fnmatch'] = B('fnmatch', self.lib_fnmatch)
@@ -1583,7 +1610,6 @@ class Library(object):
         r['datetime.timedelta'] = B('timedelta', self.lib_timedelta)
         r['copy.copy'] = B('copy.copy', lambda I, a, k: a[0])
         r['pprint.pformat'] = B('pformat', lambda I, a, k: self.repr_of(a[0]))
-        r['re.escape'] = Opaque('re.escape')
         r['random.randint'] = B('random.randint', self.lib_randint)
         r['logging.getLogger'] = B('logging.getLogger', self.lib_get_logger)
         r['logging.StreamHandler'] = B('logging.StreamHandler',
@@ -1685,7 +1711,44 @@ class Library(object):
             raise PyExc(self.make_exc('ValueError', 'time data does not match'))
         us = spec.strptime_val_f(f, t)
         ctx.assume(z3.And(us >= 0, us <= DATE_MAX_US))
-        return DateV(us)
+        return DateV(us, aware='%z' in fmt or '%Z' in fmt)
+
+    def lib_re_escape(self, I, a, k):
+        return mk(spec.re_escape_f(z3str(a[0])))
+
+    def lib_re_sub(self, I, a, k):
+        """re.sub(pattern, repl, string) for the two pattern shapes of the
+        tree: '^' + re.escape(x) (prefix replacement, never raises) and a
+        literal pattern (uninterpreted result).  Any other pattern - in
+        particular one built from un-escaped text - may be an invalid regular
+        expression: re.error on one branch."""
+        pat, repl, text = a[0], a[1], a[2]
+        ctx = I.ctx
+        pt = z3.simplify(z3str(pat))
+        ps = spec.pieces(pt)
+        if len(ps) == 2 and spec.lit(ps[0]) == '^' and z3.is_app(ps[1]) and \
+                ps[1].decl().name() == 're_escape':
+            x = ps[1].arg(0)
+            t = z3str(text)
+            r = z3str(repl)
+            if isinstance(repl, str) and ('\\' in repl):
+                raise OutsideSubset('re.sub replacement with backslash')
+            hit = z3.And(z3.PrefixOf(x, t))
+            return mk(z3.If(hit, z3.Concat(r, z3.SubString(
+                t, z3.Length(x), z3.Length(t) - z3.Length(x))), t))
+        if isinstance(pat, str):
+            import re as _re
+            try:
+                _re.compile(pat)
+            except _re.error:
+                raise PyExc(self.make_exc('re.error', 'invalid pattern'))
+            if isinstance(text, str) and isinstance(repl, str):
+                return _re.sub(pat, repl, text)
+            return mk(spec.re_sub_f(z3.StringVal(pat), z3str(repl), z3str(text)))
+        ctx.used_axioms.add('re: a pattern built from un-escaped text may be invalid')
+        if not ctx.branch(spec.re_valid_f(pt), 're-pattern-valid'):
+            raise PyExc(self.make_exc('re.error', 'invalid pattern'))
+        return mk(spec.re_sub_f(pt, z3str(repl), z3str(text)))
 
     def lib_now(self, I, a, k):
         us = I.ctx.fresh_int('now')
